@@ -4,6 +4,7 @@
 
 from __future__ import annotations
 
+import copy
 import dataclasses
 import importlib.resources
 import re
@@ -148,7 +149,6 @@ class ScatteringParams:
         )
 
     @staticmethod
-    @lru_cache
     def for_isotope(isotope: str) -> ScatteringParams:
         """Return the scattering parameters for the given element / isotope.
 
@@ -163,6 +163,13 @@ class ScatteringParams:
         :
             Neutron scattering parameters.
         """
+        # Hand out a copy so that modifying the returned variables
+        # cannot corrupt the cached parameters.
+        return copy.deepcopy(ScatteringParams._load_for_isotope(isotope))
+
+    @staticmethod
+    @lru_cache
+    def _load_for_isotope(isotope: str) -> ScatteringParams:
         with _open_bundled_parameters_file('scattering_parameters.csv') as f:
             if line_remainder := _find_line_with_isotope(isotope, f):
                 return ScatteringParams._parse_line(isotope, line_remainder)
